@@ -822,7 +822,19 @@ std::string summarize_document(Document& doc)
             std::set<int> t;
             collect_tags(v.init, t);
             collect_tags(v.uid.get_type(), t);
-            os << "  var " << v.uid.get_name() << " " << tagstr(t) << "\n";
+            // array dimensions: a declarator built on the wrong type fragment shows as a scalar (or as someone else's array)
+            int dims = 0;
+            for (type_t ty = v.uid.get_type(); !(ty == type_t{}); ) {
+                auto k = ty.get_kind();
+                if (k == ARRAY) {
+                    ++dims;
+                    ty = ty.get(0);
+                } else if (ty.size() == 1 && (ty.is_prefix() || k == REF || k == LABEL))
+                    ty = ty.get(0);
+                else
+                    break;
+            }
+            os << "  var " << v.uid.get_name() << " dims=" << dims << " " << tagstr(t) << "\n";
         }
         for (auto& f : d.functions) {
             if (!(f.uid == symbol_t{}))
